@@ -39,6 +39,9 @@ int64_t carquet_column_read_batch(
     if (max_values < 0) {
         return -1;
     }
+
+    /* Pointers handed out by the previous call are no longer guaranteed */
+    carquet_column_reader_release_retired_pages(reader);
     if (max_values == 0) {
         /* Load page if needed, but don't read any values */
         if (reader->values_remaining > 0 && !reader->page_loaded) {
